@@ -166,6 +166,29 @@ func TestVerifReplayC20(t *testing.T) {
 			}
 		}
 	}
+	// 2b. a document without a body element (frameset page): nothing can be inserted, but what is sent must still be
+	// described by its headers and decode under the announced encoding to the original document
+	{
+		fs := "<!DOCTYPE html><html><head><title>frames</title></head><frameset cols=\"50%,50%\"><frame src=\"a.html\"><frame src=\"b.html\"></frameset></html>"
+		for _, enc := range []string{"", "gzip", "br"} {
+			hdr := map[string]string{"Content-Type": "text/html; charset=utf-8"}
+			if enc != "" {
+				hdr["Content-Encoding"] = enc
+			}
+			r := verifResp(hdr, verifEncode(enc, fs))
+			if err := h.modifyResponse(r); err != nil {
+				continue
+			}
+			sent, _ := io.ReadAll(r.Body)
+			if r.ContentLength != int64(len(sent)) || r.Header.Get("Content-Length") != strconv.Itoa(len(sent)) {
+				report("rewrite", fmt.Sprintf("frameset page, encoding %q: %d bytes sent but ContentLength=%d, Content-Length header %q", enc, len(sent), r.ContentLength, r.Header.Get("Content-Length")))
+			}
+			out, err := verifDecode(r.Header.Get("Content-Encoding"), sent)
+			if err != nil || !strings.Contains(out, "<frameset") {
+				report("rewrite", fmt.Sprintf("frameset page, encoding %q: the bytes sent (%q...) do not decode under the announced encoding %q to the document: %v", enc, sent[:min(len(sent), 24)], r.Header.Get("Content-Encoding"), err))
+			}
+		}
+	}
 	// 3. HTMX requests are marked
 	{
 		rt := &roundTripper{}
@@ -182,7 +205,7 @@ func TestVerifReplayC20(t *testing.T) {
 		}
 	}
 	if len(seen) == 0 {
-		fmt.Println("REPLAY-NOT-REPRODUCED bounded search: 5 pass-through responses, 3 encodings x 7 CSP shapes rewritten and decoded, 1 HTMX request")
+		fmt.Println("REPLAY-NOT-REPRODUCED bounded search: 5 pass-through responses, 3 encodings x 7 CSP shapes rewritten and decoded, a frameset page in 3 encodings, 1 HTMX request")
 	}
 }
 `
